@@ -133,6 +133,10 @@ func c18MakeStoreSpec(r *core.Run, si int, spec *c18Spec) (*c18Store, error) {
 func runC18(r *core.Run) {
 	r.Rule("wallet stores filled with harness-minted proofs of arbitrary denominations (random multisets, active + inactive keysets, input_fee_ppk of the active keyset in {0,100,250,500,1000,2000}); from a fresh copy of store and mint per case Wallet.Send is called for every amount 1..min(balance,200) and larger random amounts, in both fee modes; a success must hand out proofs worth exactly amount (or amount + the mint's fee for exactly those proofs, computed from each proof's keyset), UNSPENT at the mint, pairwise distinct, no longer spendable in the wallet, with the balance reduced by the value sent plus the swap fees seen on the wire; every seventh amount is also sent as the first operation after a rotation (to each fee rate in turn) that the loaded wallet has not seen; a refusal is a violation when amount + fee(all proofs held) + feeBound(sent) <= balance; non-trivial = distinct (store, amount, fee mode) sends evaluated")
 	r.Assume("feeBound(sent) = fee of popcount(amount)+popcount(fee)+1 proofs of the active keyset, so the completeness premise is conservative")
+	if os.Getenv("VERIF_RACE_CHILD") != "" {
+		c18Concurrent(r, "concurrent-sends") // the -race child repeats the concurrent workload only
+		return
+	}
 	nstores := pick(r, 6, 60)
 	if !quick(r) && r.Splits() {
 		// one child process per store: every case loads a mint instance, and every instance leaves a
@@ -192,6 +196,9 @@ func runC18(r *core.Run) {
 	// every one of them out of the balance
 	if tag := "concurrent-sends"; r.Want(tag) {
 		c18Concurrent(r, tag)
+		if !quick(r) {
+			raceChild(r, "C18") // the same stage three times under the race detector
+		}
 	}
 	// directed: the store of the listed finding (greedy selection refuses a send close to the
 	// balance of a store mixing keysets), so that it is looked at whatever the seed
